@@ -565,6 +565,41 @@ func (c *c10World) dom(h *c10Handle, facts map[string]string) {
 	if want := c.canon(h); !bytes.Equal(cn, want) {
 		w.Failf("dom-roundtrip", f2, "%s: marshalled tree decodes to a different message\nloaded:     %s\nout:        %s\nout(canon): %s\nmodel:      %s", op, hexClip(h.v.Raw(), 400), hexClip(out, 400), hexClip(cn, 400), hexClip(want, 400))
 	}
+	// a deep copy (CopyTo) of the loaded tree is a tree of its own: another message loaded into the copy must not
+	// show in the original
+	if len(c.handles) > 1 && t.Chance(1, 4, "dom.copyto") {
+		var other *c10Handle
+		for _, o := range c.handles {
+			if o != h {
+				other = o
+			}
+		}
+		w.NextOp(fmt.Sprintf("CopyTo of the tree of %s, Load of %s into the copy", h.name, other.name))
+		w.opFacts = f2
+		var cp generic.PathNode
+		pn.CopyTo(&cp)
+		cp.Node = other.v.Node
+		if err := cp.Load(recurse, c.opts, c.desc); err != nil {
+			w.Failf("load-error", f2, "Load into a copied tree failed: %v", err)
+		}
+		o2, err2 := cp.Marshal(c.opts)
+		o1, err1 := pn.Marshal(c.opts)
+		w.opFacts = nil
+		if err1 != nil || err2 != nil {
+			w.Failf("marshal-error", f2, "Marshal after CopyTo failed: %v / %v", err1, err2)
+		}
+		for _, x := range []struct {
+			b    []byte
+			h    *c10Handle
+			what string
+		}{{o2, other, "copy"}, {o1, h, "original"}} {
+			cn, _, rerr := refCanon(c.sch.Root().MD, x.b)
+			if rerr != nil || !bytes.Equal(cn, c.canon(x.h)) {
+				w.Failf("dom-copy-not-independent", f2, "after CopyTo + Load into the copy, the %s tree marshals to something else than %s's message (%v)\n out: %s", x.what, x.h.name, rerr, hexClip(x.b, 300))
+			}
+		}
+		w.Count("dom_copies")
+	}
 	w.T.NoteBytes(out)
 	w.Count("dom_roundtrips")
 	w.Sig("dom:" + mode + "/" + boolStr(recurse))
